@@ -1,7 +1,7 @@
 """C16 - decoder instances are isolated and unharmed by bad input."""
 from __future__ import annotations
 
-from ..lib import NMEA2000Decoder, NMEA2000Encoder, PhysicalQuantities
+from ..lib import NMEA2000Decoder, NMEA2000Encoder, NMEA2000Message, PhysicalQuantities
 from .. import refdb, gen, wire, hist, project
 
 ID = "C16"
@@ -30,6 +30,13 @@ def shards(tier, seed):
 # an input = (entry point name, argument, kwargs)
 def call(dec, inp):
     ep, arg, kw = inp
+    if ep == "__encode__":
+        # not a decoder input at all: some encoder instance in the process is handed a message (it may well refuse it)
+        try:
+            getattr(NMEA2000Encoder(), kw.get("how", "encode_ebyte"))(arg)
+            return ("encoded",)
+        except Exception as e:  # noqa: BLE001
+            return ("exc", type(e).__name__)
     try:
         r = getattr(dec, ep)(arg, **kw)
         return ("msg", project.msg_proj(r)) if r is not None else ("none",)
@@ -40,6 +47,8 @@ def call(dec, inp):
 def call_raw(dec, inp):
     """Like call(), but also hands back the message object."""
     ep, arg, kw = inp
+    if ep == "__encode__":
+        return call(dec, inp), None
     try:
         r = getattr(dec, ep)(arg, **kw)
         return (("msg", project.msg_proj(r)) if r is not None else ("none",)), r
@@ -111,6 +120,8 @@ def is_inert(inp) -> bool:
     A well-formed first frame of a fast-packet PGN (>= 2 data bytes) restarts that stream's reassembly by design,
     even if the message it starts is rejected later."""
     ep, arg, _ = inp
+    if ep == "__encode__":
+        return True
     try:
         if ep == "decode_tcp":
             n = arg[0] & 0x0F
@@ -142,13 +153,14 @@ def is_inert(inp) -> bool:
 
 
 def probes(pool, rng, sources):
+    """-> list of (inputs, id of the definition the last input must yield)."""
     out = []
     for _ in range(3):
         if pool.singles:
             d = rng.choice(pool.singles)
             pb = pool.payload(d)
             if pb:
-                out.append([("decode_tcp", wire.ebyte_frame(wire.can_id(2, d.pgn, rng.choice(sources), 255), pb), {})])
+                out.append(([("decode_tcp", wire.ebyte_frame(wire.can_id(2, d.pgn, rng.choice(sources), 255), pb), {})], d.id))
     for seq in (6, 7):
         if pool.fasts:
             d = rng.choice(pool.fasts)
@@ -159,17 +171,30 @@ def probes(pool, rng, sources):
                 fmt = rng.choice(["ebyte", "usb", "yd", "plain"])
                 frames = wire.fast_frames(pb, seq, 0xFF)
                 if fmt == "ebyte":
-                    out.append([("decode_tcp", wire.ebyte_frame(ident, f), {}) for f in frames])
+                    out.append(([("decode_tcp", wire.ebyte_frame(ident, f), {}) for f in frames], d.id))
                 elif fmt == "usb":
-                    out.append([("decode_usb", wire.usb_frame(ident, f), {}) for f in frames])
+                    out.append(([("decode_usb", wire.usb_frame(ident, f), {}) for f in frames], d.id))
                 elif fmt == "yd":
-                    out.append([("decode_yacht_devices_string", wire.yd_line(ident, f).strip(), {}) for f in frames])
+                    out.append(([("decode_yacht_devices_string", wire.yd_line(ident, f).strip(), {}) for f in frames], d.id))
                 else:
-                    out.append([("decode_basic_string", wire.plain_line(5, d.pgn, src, 255, f), {}) for f in frames])
+                    out.append(([("decode_basic_string", wire.plain_line(5, d.pgn, src, 255, f), {}) for f in frames], d.id))
     # the same kind of message handed over pre-assembled (the text formats that carry whole messages)
     for d in (pool.fasts[:2] if pool.fasts else []):
-        out.append([whole_message_input(pool, d, rng, sources)])
-    return [p_ for p_ in out if p_ and p_[0] is not None]
+        wi = whole_message_input(pool, d, rng, sources)
+        if wi is not None:
+            out.append(([wi], d.id))
+    return out
+
+
+def odd_encoder_inputs(pool, rng):
+    """Messages an encoder is asked to send and refuses (or not): they concern no decoder at all."""
+    out = []
+    for d in rng.sample(pool.singles + pool.fasts, min(3, len(pool.singles + pool.fasts))):
+        how = rng.choice(["encode_ebyte", "encode_usb", "encode_yacht_devices", "encode_actisense"])
+        out.append(("__encode__", NMEA2000Message(PGN=float(d.pgn), id=d.id, priority=3, source=1, destination=255, fields=[]), {"how": how}))
+        out.append(("__encode__", NMEA2000Message(PGN=str(d.pgn), id=d.id, priority=3, source=1, destination=255, fields=[]), {"how": how}))
+        out.append(("__encode__", NMEA2000Message(PGN=d.pgn, id=d.id.upper(), priority=3, source=1, destination=255, fields=[]), {"how": how}))
+    return out
 
 
 def whole_message_input(pool, d, rng, sources):
@@ -289,6 +314,9 @@ def run_shard(spec, acc):
             if rng.random() < 0.25:
                 for b in bad_inputs(pool, rng, sources)[:rng.randint(1, 4)]:
                     inputs.append(("bad", None, b))
+            if rng.random() < 0.06:
+                for e_ in odd_encoder_inputs(pool, rng)[:rng.randint(1, 4)]:
+                    inputs.append(("bad", None, e_))
             if pool.fasts and rng.random() < 0.08:
                 # a fast-packet PGN arriving pre-assembled through a text format, on the same decoder
                 wi = whole_message_input(pool, rng.choice(pool.fasts), rng, sources)
@@ -312,7 +340,8 @@ def run_shard(spec, acc):
         # the reference has seen nothing but the most recent claim of every source, once (repeated and superseded
         # claims are history like everything else)
         compared = 0
-        for pr in probes(pool, rng, sources):
+        truth_applies = not any(cfg.get(k_) for k_ in ("exclude_manufacturer_code", "include_manufacturer_code", "exclude_pgns", "include_pgns", "build_network_map"))
+        for pr, want_id in probes(pool, rng, sources):
             # a reference of its own for every probe: it has seen the claims and nothing else, not even earlier probes
             ref = NMEA2000Decoder(**cfg)
             for inp in last_claim.values():
@@ -321,6 +350,15 @@ def run_shard(spec, acc):
             orf = [call(ref, i) for i in pr]
             acc.count("probes_compared")
             compared += 1
+            # the reference is the library too (and shares the process with everything that happened): where nothing in
+            # the configuration can withhold the probe, it is itself held against what was sent
+            if truth_applies:
+                acc.count("probe_references_checked_against_ground_truth")
+                last = orf[-1]
+                if last[0] != "msg" or last[1][1] != want_id:
+                    acc.violation("fresh-decoder-fails-on-a-valid-probe", f"config {cfg}: a new decoder that saw only address claims returns {last[0]} "
+                                  f"{(last[1][1] if last[0] == 'msg' else '')} for a valid {want_id} message (something earlier in this process changed it)",
+                                  dict(w, probe=[(i[1].hex() if isinstance(i[1], (bytes, bytearray)) else i[1]) for i in pr]))
             if ov != orf:
                 kind = "fast-packet-probe" if len(pr) > 1 else "single-frame-probe"
                 acc.violation(f"history-changes-{kind}", f"config {cfg}: probe decodes differently after the history than on a decoder that only saw its claims",
